@@ -37,6 +37,8 @@ pub fn bin_sequences(wsize: usize, msize: usize, in_path: &str, out_path: &str, 
             let pbar_clone = pbar.clone();
 
             scope.spawn(move |_| {
+                #[cfg(kmertools_verif)]
+                let _verif_guard = ktio::verif::WorkerGuard;
                 loop {
                     #[cfg(kmertools_verif)]
                     ktio::verif::sched_point("take", -1);
@@ -122,6 +124,8 @@ pub fn seq_to_min(wsize: usize, msize: usize, in_path: &str, out_path: &str, thr
             let buff_clone = Arc::clone(&buff);
 
             scope.spawn(move |_| {
+                #[cfg(kmertools_verif)]
+                let _verif_guard = ktio::verif::WorkerGuard;
                 loop {
                     #[cfg(kmertools_verif)]
                     ktio::verif::sched_point("take", -1);
